@@ -9,10 +9,16 @@
     reordered; `lexpos` is the position of the token;
   * `C08_keyword_never_name`: a token of type NAME never has a keyword as its text;
   * `C08_matcher_is_paths`: the executable matcher is the priority (`paths`) semantics.
-  Line numbers (c), maximal munch (e) and the literal classes (f) are carried by the
-  correspondence `lex` and the oracles (named in the evidence; not proof yet).
+  * `C08_rules_count_lines` + `C08_lineno`: (c) the regenerated rule table passes the
+    line-count check (every rule either cannot match a newline, or counts the newlines of its
+    match, or matches newlines only and adds the length; ignored characters and literals are
+    not newlines), and therefore after every token the line counter has advanced by exactly
+    the newlines of the text consumed, the token's `lineno` being the counter where it starts.
+  Maximal munch (e) and the literal classes (f) are carried by the correspondence `lex` and
+  the oracles (named in the evidence; not proof yet).
 -/
 import CxxModel.Theorems.LexPartition
+import CxxModel.Theorems.LexLines
 import CxxModel.Tables
 namespace Cxx
 
@@ -53,5 +59,17 @@ theorem C08_name_rule :
   decide +kernel
 
 theorem C08_matcher_is_paths (r : Re) (s : Str) : rmatchK r s = (paths r s).head? := rmatchK_eq_rmatch r s
+
+
+/-- the lexer configuration regenerated from `PlyLexer` -/
+def genCfg : LexCfg := { rules := Gen.rules, literals := Gen.literals, ignore := Gen.ignore, keywords := Gen.keywords }
+
+theorem C08_rules_count_lines : LineCountOK genCfg = true := by decide +kernel
+
+theorem C08_lineno (fuel : Nat) (st : LexState) (t : RawTok) (st' : LexState)
+    (h : plyToken genCfg fuel st = .tok t st') :
+    ∃ gap, st.rest = gap ++ t.value ++ st'.rest ∧ t.lineno = st.lineno + countNl gap ∧
+      st'.lineno = st.lineno + countNl gap + countNl t.value :=
+  plyToken_lineno genCfg C08_rules_count_lines fuel st t st' h
 
 end Cxx
